@@ -282,7 +282,13 @@ class CallsMixin:
             if k == 'Np2':
                 return V(INT, T.mat_n0(v.ty, self.load(v, st)))
             if k == 'Set':
-                return V(INT, self.db.card(self.load(v, st), v.ty))
+                sterm = self.load(v, st)
+                c = self.db.card(sterm, v.ty)
+                x = z3.Const(fresh_name('ce'), sort_of(v.ty.args[0]))
+                # the two facts about cardinality that code relies on: non-negative, zero iff empty
+                st.pc.append(c >= 0)
+                st.pc.append((c == 0) == z3.ForAll([x], z3.Not(T.Sel(sterm, x))))
+                return V(INT, c)
             if k == 'Dict':
                 return V(INT, self.db.card(T.dict_dom(v.ty, self.load(v, st)), SetT(v.ty.args[0])))
             raise Unsupported(f'len of {v.ty!r}')
@@ -292,8 +298,8 @@ class CallsMixin:
             m = self.iter_model(vals[0], st)
             if m.setlike is not None:
                 raise Unsupported('enumerate over set')
-            start = self.coerce(vals[1], INT, st).t if len(vals) > 1 else I0
-            return V(PY, py=IterModel(m.n, lambda i, s: self.mk_tuple([V(INT, i + start), m.item(i, s)], s),
+            start = self.coerce(vals[1], INT, st).t if len(vals) > 1 else None
+            return V(PY, py=IterModel(m.n, lambda i, s: self.mk_tuple([V(INT, i if start is None else i + start), m.item(i, s)], s),
                                       src_locs=m.src_locs))
         if name == 'zip':
             ms = [self.iter_model(v, st) for v in vals]
@@ -347,13 +353,15 @@ class CallsMixin:
             return self.to_list(vals[0], st)
         if name in ('set', 'frozenset'):
             if not vals:
-                raise Unsupported('untyped empty set (declare the variable type in the contract)')
+                return V(Ty('Set', (Ty('Bottom'),)), None, py=set())
             return self.to_set(vals[0], st)
         if name == 'dict':
             if not vals:
                 raise Unsupported('untyped empty dict')
         if name == 'sum':
             v = vals[0]
+            if v.ty.kind == 'Optional':
+                v = self.coerce(v, v.ty.args[0], st, 'argument of sum')
             if v.ty.kind == 'Tuple':
                 r = self.tuple_get(v, 0, st)
                 for i in range(1, len(v.ty.args)):
@@ -634,6 +642,10 @@ class CallsMixin:
         for p, d in spec.get('defaults', {}).items():
             if p not in env:
                 env[p] = self.const(d)
+        for gname in spec.get('ghost', ()):
+            # ghost parameters of the callee are instantiated with the caller's ghost of the same name
+            if gname in st.env:
+                env[gname] = st.env[gname]
         for p in params:
             if p not in env:
                 raise Unsupported(f'call {label}: missing argument {p}')
@@ -646,7 +658,21 @@ class CallsMixin:
                 env[p] = cv
         if spec.get('assumed'):
             self.assumed.append(label)
+        if spec.get('pure_expr'):
+            # a side-effect free callee whose result is a function of its arguments (usable under quantifiers)
+            return self.eval_spec_expr(spec['pure_expr'], env, st, st)
+        if st.guards and not self.in_spec:
+            raise Unsupported(f'call to {label} inside a comprehension / short-circuit context: its result must be a '
+                              f'function of the arguments (give the callee spec a `pure_expr`)')
         ordn = getattr(self, 'call_ord', {}).get(id(node), 0)
+        saved_defs = self.contract.get('defs')
+        if spec.get('defs'):
+            merged = dict(saved_defs or {})
+            merged.update(spec['defs'])
+            self.contract = dict(self.contract)
+            self.contract['defs'] = merged
+        saved_callee_env = getattr(self, 'callee_env', None)
+        self.callee_env = env
         for lab, r in self.norm_clauses(spec.get('requires', ())):
             g = self.eval_spec(r, env, st, pre=st)
             self.emit(st, 'call-pre', f'{label}#{ordn}:{lab}', g, node=node)
@@ -662,6 +688,12 @@ class CallsMixin:
             result = self.const(None)
         env2 = dict(env)
         env2['result'] = result
+        for lname, lty in spec.get('post_locals', ()):
+            # final value of a callee local mentioned by its postconditions: an unknown witness for the caller
+            if lty is None:
+                raise Unsupported(f'callee {label}: post_local {lname} needs a declared type')
+            t = parse_type(lty)
+            env2['final_' + lname] = V(t, fresh(t, 'final_' + lname))
         if spec.get('allocates'):
             self.allocate(result, st)
         # havoc
@@ -678,6 +710,10 @@ class CallsMixin:
                 st.assume(z3.Not(w))
         for lab, e in self.norm_clauses(spec.get('ensures', ())):
             st.assume(self.eval_spec(e, env2, st, pre=pre))
+        if spec.get('defs'):
+            self.contract = dict(self.contract)
+            self.contract['defs'] = saved_defs or {}
+        self.callee_env = saved_callee_env
         return result
 
     def alloc_map(self, st):
